@@ -36,6 +36,17 @@ fn main() {
         "worker" => driver::worker(&args[2..]),
         "replay" => driver::replay(&args[2]),
         "oracle" => boundary::oracle_loop(),
+        // jlmc ref '<rule json>' '<data json>': what the reference model says, and what the library does
+        "ref" => {
+            let r: serde_json::Value = serde_json::from_str(&args[2]).expect("rule json");
+            let d: serde_json::Value = serde_json::from_str(args.get(3).map(|s| s.as_str()).unwrap_or("null")).expect("data json");
+            let (e, tr) = refmodel::reference(&r, &d);
+            println!("R:    {} log={:?} order_pinned={}", e.show(), tr.lines, tr.order_pinned);
+            let _saved = exec::capture_stdout();
+            let o = exec::apply(&r, &d);
+            eprintln!("real: {}", o.show());
+            0
+        }
         "corpus" => {
             println!("{}", selftest::corpus_json());
             0
